@@ -335,3 +335,40 @@ def shared_object_programs(draw):
         l = [o + [{}] if o[0] == "wait" and len(o) == 2 else o for o in l]
         ops.append(l)
     return _scenario(objects, ops)
+
+
+@st.composite
+def many_actor_programs(draw):
+    """4 (sometimes 5) actors with 1-2 operations each, in a generated creation order: semaphores of capacity 0/1 with release /
+    acquire chains across actors (acquire t then release s), mutex lock / try_lock / unlock mixes.  ODPOR's race detection only
+    has more than two candidates per event with >= 4 actors.  May deadlock: the caller filters with the reference semantics."""
+    nact = draw(st.sampled_from([4, 4, 4, 5]))
+    nsem = draw(st.sampled_from([1, 2, 2]))
+    nmut = draw(st.sampled_from([0, 1, 1, 2]))
+    objects = {"sem": [draw(st.sampled_from([0, 0, 1])) for _ in range(nsem)]}
+    if nmut:
+        objects["mutex"] = [{"recursive": False} for _ in range(nmut)]
+    kinds = ["rel", "rel", "acq", "acq_rel", "rel_rel"] + (["cs", "try", "cs_rel", "cs_cs"] if nmut else [])
+    ops = []
+    for a in range(nact):
+        k = draw(st.sampled_from(kinds))
+        s, t = draw(st.integers(0, nsem - 1)), draw(st.integers(0, nsem - 1))
+        m, m2 = (draw(st.integers(0, nmut - 1)), draw(st.integers(0, nmut - 1))) if nmut else (0, 0)
+        if k == "rel":
+            l = [["release", s]]
+        elif k == "acq":
+            l = [["acquire", s]]
+        elif k == "acq_rel":
+            l = [["acquire", t], ["release", s]]
+        elif k == "rel_rel":
+            l = [["release", s], ["release", t]]
+        elif k == "cs":
+            l = [["lock", m], ["unlock", m]]
+        elif k == "try":
+            l = [["try_lock", m], ["unlock_if", m, 0]]
+        elif k == "cs_rel":
+            l = [["lock", m], ["unlock", m], ["release", s]]
+        else:
+            l = [["lock", m], ["unlock", m], ["lock", m2], ["unlock", m2]]
+        ops.append(l)
+    return _scenario(objects, ops)
